@@ -372,6 +372,9 @@ func oddInstances(r *rng) []any {
 		make(chan int), func() {}, complex(1, 2), big.NewInt(5), *big.NewRat(1, 3), time.Unix(0, 0), new(any),
 		[]any{math.NaN(), math.NaN()}, []any{json.Number("abc"), json.Number("abc")}, []any{nilMap, nil}, map[string]any{"a": math.Inf(1)},
 		MyStr("x"), MyInt(3), true, "",
+		// nil maps are empty objects: present members of typed maps, behind interfaces
+		map[string]map[string]any{"a": nil, "b": nil, "c": {}}, map[string]any{"a": nilMap, "b": map[string]map[string]int(nil), "c": nilMap, "d": nilMap},
+		map[string]rbNamedMap{"a": nil, "b": nil}, map[string]map[string]map[string]any{"a": nil, "b": {"a": nil, "b": nil}},
 	}
 }
 
@@ -387,6 +390,11 @@ func genInstCase(r *rng, id string) *RobustCase {
 		doc, _ = g.smallScalarDoc()
 	default:
 		doc = g.document(2)
+	}
+	if r.chance(1, 3) {
+		// ApplyDefaults needs something to insert: defaults under properties at any depth
+		// (without the family's "$dynamicRef": "#", an in-place cycle that C10 excludes)
+		doc = dropKey(genDefaultsSchema(r, 1+r.intn(3), g), "$dynamicRef")
 	}
 	all := oddInstances(r)
 	picks := shuffled(r, all)[:12]
@@ -451,6 +459,20 @@ type rbTags struct {
 	H int `json:"a,b,c"`
 	I int `json:",,"`
 }
+type rbPtrSelf *rbPtrSelf
+type rbPtrA *rbPtrB
+type rbPtrB *rbPtrA
+type rbPtrField struct {
+	K int
+	P rbPtrSelf
+}
+type rbNamedPtr *int
+type rbPtrToStruct *rbPtrStruct
+type rbPtrStruct struct{ Back rbPtrToStruct }
+type rbMapSelf map[string]rbMapSelf
+type rbMapPtrSelf map[string]*rbMapPtrSelf
+type rbMapViaSlice map[string][]rbMapViaSlice
+type rbArrSelf [2]*rbArrSelf
 type rbIntKey map[int]string
 type rbGeneric[T any] struct{ V T }
 type rbDupNames struct {
@@ -467,6 +489,10 @@ var forTypes = []reflect.Type{
 	reflect.TypeFor[big.Int](), reflect.TypeFor[*big.Rat](), reflect.TypeFor[time.Time](), reflect.TypeFor[time.Duration](), reflect.TypeFor[json.Number](), reflect.TypeFor[json.RawMessage](),
 	reflect.TypeFor[[]byte](), reflect.TypeFor[[4]byte](), reflect.TypeFor[uintptr](), reflect.TypeFor[complex64](), reflect.TypeFor[reflect.Value](), reflect.TypeFor[js.Schema](), reflect.TypeFor[*js.Schema](),
 	reflect.TypeFor[map[MyKey]rbRec](), reflect.TypeFor[map[*int]int](), reflect.TypeFor[map[rbIface]int](),
+	// cycles that close on a defined pointer, map or array type
+	reflect.TypeFor[rbPtrSelf](), reflect.TypeFor[*rbPtrSelf](), reflect.TypeFor[rbPtrA](), reflect.TypeFor[rbPtrField](), reflect.TypeFor[rbNamedPtr](),
+	reflect.TypeFor[rbPtrToStruct](), reflect.TypeFor[rbPtrStruct](), reflect.TypeFor[rbMapSelf](), reflect.TypeFor[rbMapPtrSelf](), reflect.TypeFor[rbMapViaSlice](),
+	reflect.TypeFor[rbArrSelf](), reflect.TypeFor[struct{ M rbMapSelf }](), reflect.TypeFor[[]rbMapPtrSelf](),
 }
 
 func genTypesCase(r *rng, id string) *RobustCase {
